@@ -177,7 +177,12 @@ func (h *Header) BucketHash(key []byte) uint {
 	n := uint64(h.NumBuckets)
 	r := (-n) % n
 	for u < r {
-		u = hashUint64(u)
+		next := hashUint64(u)
+		if next == u {
+			// fixed point of the permutation (hashUint64(0) == 0): re-hashing would spin forever
+			break
+		}
+		u = next
 	}
 	return uint(u % n)
 }
